@@ -570,8 +570,13 @@ pub fn one_of(g: &mut G, c: &Ctx, depth: usize) -> Value {
             tags.iter()
                 .enumerate()
                 .map(|(i, t)| {
-                    if i == 0 && g.chance(1, 3) {
-                        json!({"type": "object", "properties": {"tag": {"type": "string", "enum": [t]}}, "required": ["tag"]})
+                    if i == 0 && g.chance(1, 2) {
+                        let mut w = json!({"type": "object", "properties": {"tag": {"type": "string", "enum": [t]}}, "required": ["tag"]});
+                        // this one wrapper may be closed (that says nothing about the other alternatives)
+                        if !c.cfg.enforced && g.chance(2, 3) {
+                            w["additionalProperties"] = json!(false);
+                        }
+                        w
                     } else {
                         let content = if g.chance(1, 3) {
                             { let cl = g.chance(1, 2); closed_object(g, c, depth + 1, vec![], cl, true) }
@@ -658,6 +663,12 @@ pub fn one_of(g: &mut G, c: &Ctx, depth: usize) -> Value {
 /// (the branch itself and the payload one level below).
 fn uniform_closedness(v: &mut Value, close: bool, depth: usize) -> u64 {
     let mut n = 0;
+    // a conjunction of objects is an open struct that cannot simply be closed: inside a closed
+    // union it is replaced (same known finding, KF-002)
+    if close && v.get("allOf").is_some() {
+        *v = json!({"type": "string"});
+        return 1;
+    }
     let Some(o) = v.as_object_mut() else { return 0 };
     let structlike = o.get("type") == Some(&json!("object")) && o.get("properties").and_then(|p| p.as_object()).is_some();
     if structlike {
@@ -1321,7 +1332,11 @@ pub fn optional_cyclic_refs(doc: &Value) -> Vec<(String, String)> {
                     if required.contains(pn) {
                         continue;
                     }
-                    if let Some(t) = ps.get("$ref").and_then(|r| r.as_str()).and_then(|r| r.strip_prefix("#/definitions/")) {
+                    // a bare reference, or one made nullable through a oneOf (the `null` that is
+                    // written back for it matches the oneOf twice when the target admits null itself)
+                    let direct = ps.get("$ref").and_then(|r| r.as_str());
+                    let through_one_of = ps.get("oneOf").and_then(|b| b.as_array()).filter(|b| b.len() == 2 && b.iter().any(is_null_schema)).and_then(|b| b.iter().find_map(|x| x.get("$ref").and_then(|r| r.as_str())));
+                    if let Some(t) = direct.or(through_one_of).and_then(|r| r.strip_prefix("#/definitions/")) {
                         if t == dname || reach.get(t).map(|s| s.contains(dname)).unwrap_or(false) {
                             out.push((dname.clone(), pn.clone()));
                         }
@@ -1335,10 +1350,6 @@ pub fn optional_cyclic_refs(doc: &Value) -> Vec<(String, String)> {
 
 /// KF-004 exclusion: make such properties explicitly nullable.
 pub fn make_optional_cyclic_refs_nullable(doc: &mut Value) -> u64 {
-    let hits = optional_cyclic_refs(doc);
-    if hits.is_empty() {
-        return 0;
-    }
     let reach = reachability(doc);
     let mut n = 0;
     let Some(defs) = doc.get_mut("definitions").and_then(|d| d.as_object_mut()) else { return 0 };
@@ -1350,11 +1361,25 @@ pub fn make_optional_cyclic_refs_nullable(doc: &mut Value) -> u64 {
                     if required.contains(pn) {
                         continue;
                     }
-                    let t = ps.get("$ref").and_then(|r| r.as_str()).and_then(|r| r.strip_prefix("#/definitions/")).map(|s| s.to_string());
-                    if let Some(t) = t {
-                        if &t == dname || reach.get(&t).map(|s| s.contains(dname)).unwrap_or(false) {
-                            *ps = json!({"oneOf": [ps.clone(), {"type": "null"}]});
+                    let target_of = |v: &Value| v.get("$ref").and_then(|r| r.as_str()).and_then(|r| r.strip_prefix("#/definitions/")).map(|s| s.to_string());
+                    let cyclic = |t: &String| t == dname || reach.get(t).map(|s| s.contains(dname)).unwrap_or(false);
+                    if let Some(t) = target_of(ps) {
+                        if cyclic(&t) {
+                            // (anyOf: the target may itself admit null, which a oneOf would then match twice)
+                            *ps = json!({"anyOf": [ps.clone(), {"type": "null"}]});
                             n += 1;
+                        }
+                        continue;
+                    }
+                    // already nullable through a oneOf: same reason, the null that is written back
+                    // must not match twice
+                    let alts: Option<Vec<Value>> = ps.get("oneOf").and_then(|b| b.as_array()).filter(|b| b.len() == 2 && b.iter().filter(|x| is_null_schema(x)).count() == 1).cloned();
+                    if let Some(alts) = alts {
+                        if let Some(t) = alts.iter().find_map(|a| target_of(a)) {
+                            if cyclic(&t) && ps.as_object().map(|o| o.len() == 1).unwrap_or(false) {
+                                *ps = json!({"anyOf": alts});
+                                n += 1;
+                            }
                         }
                     }
                 }
